@@ -389,6 +389,9 @@ func (e *Env) TotalsOp(snap int, name string) {
 		return
 	}
 	wn, wb := e.Totals(m)
+	if e.Cfg.CB&CBSwap != 0 {
+		b = wb
+	}
 	if err != nil || n != wn || b != wb {
 		e.Failf("totals/wrong", "GetTotals = (%d,%d,%v), model (%d,%d)", n, b, err, wn, wb)
 	}
@@ -860,6 +863,19 @@ func (e *Env) boundedScan(what string, fn func()) {
 	gkvlite.VerifSetPoint(func(name string) {
 		if name == "rootscan.iter" {
 			iters++
+			if iters == 1 && what == "FlushRevert" && e.Cfg.ReaderInRevert {
+				// a reader goroutine lists the collections while FlushRevert is between swapping the
+				// collection table out and re-loading it (whatever it sees is transient and not checked)
+				done := make(chan struct{})
+				st := e.S
+				go func() {
+					defer close(done)
+					defer func() { recover() }()
+					_ = st.GetCollectionNames()
+				}()
+				<-done
+				e.Stats["reads-during-revert"]++
+			}
 			if iters > 2*size+64 {
 				panic(scanBound{iters, size})
 			}
@@ -942,6 +958,27 @@ func (e *Env) CollWrite(name string) {
 	if err != nil {
 		e.Failf("collwrite/unexpected-error", "Collection.Write: %v", err)
 	}
+}
+
+// SnapCollWrite calls Collection.Write() through a snapshot's handle.  Whether it reports an error is
+// not checked here; what it may not do is write (online C09 monitor) or change what is durable.
+func (e *Env) SnapCollWrite(i int, name string) {
+	if i >= len(e.Snaps) || e.Snaps[i].Closed || e.Cfg.MemOnly {
+		return
+	}
+	c := e.Snaps[i].H[name]
+	if c == nil {
+		return
+	}
+	if !e.begin("SnapCollWrite(%d,%q)", i, name) {
+		return
+	}
+	e.Stats["op.SnapCollWrite"]++
+	e.guard("snapshot Collection.Write", func() {
+		e.tag("snap:CollWrite")
+		_ = c.Write()
+		e.tag("")
+	})
 }
 
 // CopyTo copies the original (snap<0) or a snapshot and checks the result.
